@@ -215,19 +215,17 @@ class SimProcess:
         has_out = stdout == asyncio.subprocess.PIPE
         self._stderr_pipe = stderr == asyncio.subprocess.PIPE
         self._merge_err = stderr == asyncio.subprocess.STDOUT
+        self.kind = "shell" if has_in and has_out else ("writer" if has_in else "reader")
         model = sim.info.get("proc_model")
         self.plan = model(self) if model else {}
         if has_in and has_out:
-            self.kind = "shell"
             self.stdin = SimPipeWriter(self)
             self.stdout = SimPipeReader(sim, self.name)
             self._spawn_interactive()
         elif has_in:
-            self.kind = "writer"
             self.stdin = SimPipeWriter(self)
             self._die_after = self.plan.get("die_after")
         else:
-            self.kind = "reader"
             if has_out:
                 self.stdout = SimPipeReader(sim, self.name)
             if self._stderr_pipe:
